@@ -1037,6 +1037,10 @@ func hookOverlay(repo, scratch string, ov map[string]string) error {
 // crash) or report an injected fault.
 var VerifHook func(op, path string) bool
 
+// VerifForeignFlock: advisory locks held by a process outside the replay (base name -> 1 shared,
+// 2 exclusive); written by the harness intrinsic verifForeignFlock before the code under test runs.
+var VerifForeignFlock = map[string]int{}
+
 func VerifPoint(op, path string) bool {
 	if VerifHook != nil {
 		return VerifHook(op, path)
@@ -1065,13 +1069,37 @@ func hookCloseFile(fp *os.File) error {
 
 package file
 
-import "os"
+import (
+	"os"
+	"syscall"
+)
 
-func LockSH(_ *os.File) error    { return nil }
-func LockEX(_ *os.File) error    { return nil }
-func TryLockSH(_ *os.File) error { return nil }
-func TryLockEX(_ *os.File) error { return nil }
-func Unlock(_ *os.File) error    { return nil }
+func verifForeign(fp *os.File) int {
+	name := fp.Name()
+	for i := len(name) - 1; i >= 0; i-- {
+		if name[i] == '/' {
+			name = name[i+1:]
+			break
+		}
+	}
+	return VerifForeignFlock[name]
+}
+
+func LockSH(_ *os.File) error { return nil }
+func LockEX(_ *os.File) error { return nil }
+func TryLockSH(fp *os.File) error {
+	if verifForeign(fp) == 2 {
+		return syscall.EWOULDBLOCK
+	}
+	return nil
+}
+func TryLockEX(fp *os.File) error {
+	if verifForeign(fp) != 0 {
+		return syscall.EWOULDBLOCK
+	}
+	return nil
+}
+func Unlock(_ *os.File) error { return nil }
 `)
 	// lib/file: stat, remove, rename, glob
 	files, _ := filepath.Glob(filepath.Join(repo, "lib", "file", "*.go"))
